@@ -371,7 +371,7 @@ def main(tier, seed):
     if q:
         batches = [{"kind": "dfs", "start": s, "maxdepth": 12, "budget": 12000} for s in starts]
     else:
-        batches = [{"kind": "dfs", "start": s, "maxdepth": 12, "budget": 120000, "first": i} for s in starts for i in range(len(OPS))]
+        batches = [{"kind": "dfs", "start": s, "maxdepth": 12, "budget": 50000, "first": i} for s in starts for i in range(len(OPS))]
     for i in range(8 if q else 32):
         batches.append({"kind": "random", "n": 400 if q else 6000, "seed": seed * 4093 + i})
     acc = harness.run_workers("checks.c11_container", "run_batch", batches, 3000)
